@@ -310,7 +310,13 @@ def _result_sites(b, suffixes):
             rec(n.get("args"), None)
             return
         if k == "match":
-            rec(n["e"], "match")
+            # `match r { Ok(v) => .., Err(e) => return Err(..) }` is the long spelling of `r.map_err(..)?`
+            c_ = "match"
+            for a in n.get("arms") or []:
+                p_ = a.get("pat") or {}
+                if (p_.get("path") or "").endswith("::Err") and _leaves_with_err(a.get("body")):
+                    c_ = "try"
+            rec(n["e"], c_)
             for a in n.get("arms") or []:
                 rec(a["body"], cons)
             return
@@ -450,6 +456,12 @@ def g4_g5_g6(rep, tms):
             sites = []
             for inst in by_ty.get(sty, []):
                 sites += tm.field_sites(inst, fname)
+            if not sites and any(getattr(inst, "in_closure", False) for inst in by_ty.get(sty, [])):
+                # the value is assembled inside a closure from the closure's parameters (a builder handed to a
+                # generic helper): where those come from is not followed
+                rep.notes.append("G4: %s.%s is assembled in a closure whose arguments the flow analysis does not "
+                                 "follow: undecided" % (G.short(sty), fname))
+                continue
             if not sites:
                 rep.add(Finding("G4", tm.sfn, "%s.%s:unparsed" % (G.short(sty), fname),
                                 "%s.%s is serialised but no parse step can fill it" % (G.short(sty), fname),
@@ -838,6 +850,11 @@ def g11(rep, tms):
         cur = [[t, k] for t, k, ty in lay[name]]
         if cur != ref[name]:
             tm = by.get(name)
+            if tm is not None and any(getattr(inst, "in_closure", False) for inst in tm.model_structs()
+                                      if G.short(inst.path) == name):
+                rep.notes.append("G11: %s is assembled in a closure whose arguments the flow analysis does not "
+                                 "follow: layout undecided" % name)
+                continue
             d = next((x for x in range(min(len(cur), len(ref[name]))) if cur[x] != ref[name][x]), min(len(cur), len(ref[name])))
             rep.add(Finding("G11", tm.pfn if tm else name, "%s:layout" % name,
                             "%s reads its fields in a different order / with different kinds than the reference layout "
